@@ -1,9 +1,9 @@
 #!/bin/bash
-# tools/seedround.sh [dir=/tmp/seedout] — verifies every <dir>/<ID>/<x>/patch.diff of a sub-agent round
+# tools/seedround.sh [dir=/tmp/seedout] [id-glob] — verifies every <dir>/<ID>/<x>/patch.diff of a sub-agent round
 # (seedverify) against the property's own check and its neighbours; one line per change.
 cd "$(dirname "${BASH_SOURCE[0]}")/.."
 D="${1:-/tmp/seedout}"
 declare -A REL=( [C01]="C01 C02 C18" [C02]="C02 C03 C04" [C03]="C03 C02 C18" [C04]="C04 C02 C13" [C05]="C05 C02" [C06]="C06 C07 C19" [C07]="C07 C06" [C08]="C08 C12 C16" [C09]="C09 C10" [C10]="C10 C09" [C11]="C11 C12 C08 C10" [C12]="C12 C08 C11 C02" [C13]="C13 C04 C11" [C14]="C14 C12 C02" [C15]="C15 C02" [C16]="C16 C02 C12 C08" [C17]="C17 C02" [C18]="C18 C03 C02" [C19]="C19 C06 C07" [C20]="C20 C13" )
-for p in "$D"/C??/?/patch.diff; do
+for p in "$D"/${2:-C??}/?/patch.diff; do
   d=$(dirname "$p"); id=$(basename $(dirname "$d")); echo "$d ${REL[$id]}"
 done | xargs -P "${PAR:-5}" -L 1 bash -c 'tools/seedverify.sh "$0" "${@}" 2>&1 | grep SUMMARY' | sed 's/demo_clean=0(0 wanted) suite_with_change=0(0 wanted) demo_with_change=1(nonzero wanted) |/OK|/; s#SUMMARY '"$D"'/##' | sort | cut -c1-400
